@@ -156,6 +156,58 @@ def c09_run(c):
     return tie
 
 
+def c10_run(c):
+    """The ledger stream, then the same in-place decoding paths interpreted by Miri (uninitialised
+    reads, invalid frees, use after free, leaks at exit) - harness/miri, a crate of its own."""
+    import hashlib, re
+    tie = c["base_tie"]
+    if tie is None or "crashed" in tie:
+        return tie
+    alt = c["repo"] != "/repo"
+    base = os.path.join(c["build"], "alt-" + hashlib.sha1(c["repo"].encode()).hexdigest()[:8]) if alt else c["build"]
+    hsrc = os.path.join(base, "harness") if alt else (os.environ.get("VERIF_HARNESS") or os.path.join(c["verif"], "harness"))
+    src = os.path.join(hsrc, "miri")
+    work = os.path.join(base, "miri")
+    if not os.path.isdir(src):
+        tie["stats"]["miri"] = "no harness/miri directory"
+        return tie
+    probe = subprocess.run(["cargo", "+nightly", "miri", "--version"], stdout=subprocess.PIPE, stderr=subprocess.STDOUT, text=True)
+    if probe.returncode != 0:
+        tie["stats"]["miri"] = "unavailable: " + probe.stdout.strip()[-120:]
+        return tie
+    os.makedirs(work, exist_ok=True)
+    subprocess.run(["rsync", "-a", "--delete", "--exclude", "target", "--exclude", "Cargo.lock", src + "/", work + "/"], check=True)
+    ct = open(os.path.join(work, "Cargo.toml")).read().replace('path = "/repo"', 'path = "%s"' % c["repo"])
+    open(os.path.join(work, "Cargo.toml"), "w").write(ct)
+    cfg = open(os.path.join(work, ".cargo", "config.toml")).read().replace("/verif/.build/miri-target", os.path.join(work, "target"))
+    open(os.path.join(work, ".cargo", "config.toml"), "w").write(cfg)
+    shutil.copyfile(os.path.join(c["repo"], "Cargo.lock"), os.path.join(work, "Cargo.lock"))
+    try:
+        r = subprocess.run(["cargo", "+nightly", "miri", "run", "--offline"], cwd=work, stdout=subprocess.PIPE, stderr=subprocess.STDOUT,
+                           text=True, timeout=3000, env=dict(os.environ, CARGO_NET_OFFLINE="true", MIRIFLAGS=""))
+    except subprocess.TimeoutExpired:
+        tie["oracle"].append({"property": "C10", "what": "Miri: the interpreted decode cases did not finish within the time limit"})
+        return tie
+    out = r.stdout
+    m = re.search(r"MIRI-OK (\d+)", out)
+    cases = re.findall(r"^CASE (.*)$", out, flags=re.M)
+    tie["stats"]["miri:cases"] = int(m.group(1)) if m else len(cases)
+    if r.returncode != 0 or not m:
+        if "error: could not compile" in out or "error[E" in out:
+            # the crate under test does not build for the interpreter: a correspondence problem, no failing input
+            tie.setdefault("extra_problems", []).append("harness/miri does not build against the working tree: " + out.strip()[-600:])
+        else:
+            ls = out.split("\n")
+            errs = [l for l in ls if l.startswith("error")]
+            # an assertion of the program itself (not the scripted panics of the element decoder)
+            errs += [l + " " + ls[i + 1] for i, l in enumerate(ls[:-1]) if "panicked at" in l and "scripted panic" not in ls[i + 1]]
+            first = errs[0] if errs else out.strip().split("\n")[-1]
+            tie["oracle"].append({"property": "C10", "what": "Miri: %s - while decoding CASE %s" % (first.strip()[:300], cases[-1] if cases else "?"),
+                                  "miri_tail": out[-1500:]})
+    tie["lines"] += len(cases)
+    return tie
+
+
 def c20_run(c):
     """Build the harness against the crate in each feature configuration, run the same
     deterministic corpus in each, compare every configuration with the same model answers and the
@@ -409,10 +461,11 @@ PROPS = {
     },
     "C10": {
         "streams": ["ledger"],
-        "rule": "an instrumented element type (global ledger of ids; its decoder reads one byte: constructs, fails as malformed, panics, or finds the input exhausted) decoded inside [T;N], Box<[T;N]>, Rc<[T;N]>, Arc<[T;N]>, a repr(transparent) newtype over [T;N] (derived decode_into) and its Box, [Box<T>;N], [[T;2];N], [Option<T>;N], Vec, VecDeque, LinkedList, Box<Vec>, Vec<Box>, BTreeMap, Option, Result, tuples, Box<tuple>, a derived struct (array + skipped field + Vec + Box) and a derived enum; N in {0,1,2,3,5,8,17,40} (thorough adds 4,6,7,16,31,32,33); EXHAUSTIVE over that grid: the no-failure case and every failure position k < N x {input exhausted, malformed element, panic in the element decoder}; plus a memory limit hit at every k inside [Box<T>;N] and a depth limit inside Vec<Box<T>>. Each case under catch_unwind; oracle: after the result (if any) is dropped every constructed id was dropped exactly once, no id dropped that was never constructed, a successful decode had dropped nothing and constructed all N; the (outcome, constructed, dropped, handed-over) summary is compared with the model for the array / boxed-array / owner-collection shapes. non-trivial = distinct request whose model answer is not `err`",
+        "custom": c10_run,
+        "rule": "an instrumented element type (global ledger of ids; its decoder reads one byte: constructs, fails as malformed, panics, or finds the input exhausted) decoded inside [T;N], Box<[T;N]>, Rc<[T;N]>, Arc<[T;N]>, a repr(transparent) newtype over [T;N] (derived decode_into) and its Box, [Box<T>;N], [[T;2];N], [Option<T>;N], Vec, VecDeque, LinkedList, Box<Vec>, Vec<Box>, BTreeMap, Option, Result, tuples, Box<tuple>, a derived struct (array + skipped field + Vec + Box) and a derived enum; N in {0,1,2,3,5,8,17,40} (thorough adds 4,6,7,16,31,32,33); EXHAUSTIVE over that grid: the no-failure case and every failure position k < N x {input exhausted, malformed element, panic in the element decoder}; plus a memory limit hit at every k inside [Box<T>;N] and a depth limit inside Vec<Box<T>>. Each case under catch_unwind; oracle: after the result (if any) is dropped every constructed id was dropped exactly once, no id dropped that was never constructed, a successful decode had dropped nothing and constructed all N; the (outcome, constructed, dropped, handed-over) summary is compared with the model for the array / boxed-array / owner-collection shapes (GenericArray<T,N> and its holders included). MIRI stage (harness/miri, `cargo +nightly miri run`): ~700 of the same cases (arrays N in {0,1,2,5} x every failure position x {malformed, panic, exhausted}; Box/Rc/Arc of arrays; repr(transparent) newtypes incl. one whose only non-zero-sized field is #[codec(skip)] and one with an encoded zero-sized field, read back after decoding; Vec/VecDeque/LinkedList/BTreeMap; derived struct and enum; GenericArray; memory and depth limits hit inside holders; bulk reads that run short) are interpreted by Miri with an element type that owns a heap block: an uninitialised read, invalid or double free, use after free, or (at exit) a leak is an oracle failure naming the case. non-trivial = distinct request whose model answer is not `err`",
         "level_text": "Proved in Lean on an explicit event model of the hand-rolled ownership paths, for EVERY length N, failure position and kind: [T;N]::decode_into either constructs and hands over all N elements (none dropped) or stops at the first failing element k, drops exactly the k constructed elements - each once, never an unconstructed one - and hands nothing over (also when the element decoder panics: the guard runs on unwind); without drop glue the guard does nothing; Box::decode_wrapped allocates its block at most once and frees it exactly when decoding fails, without touching the payload's own ledger. Tied to src/codec.rs by replaying the exhaustive failure grid on the real code with a ledger-instrumented element type.",
-        "level_note": "Partial: Rust's drop elaboration (locals dropped on `?`, unwinding order) is built into the model as the language rule it is; use-after-free and reads of uninitialised memory are not expressible in the ledger model - a heap misuse is visible only as a ledger imbalance or a crashed harness (which the check reports as a violation without a minimal input). Miri is not run by the registered commands.",
-        "trusted_base": COMMON_TB + ["Rust drop and unwinding semantics; catch_unwind"],
+        "level_note": "Partial: Rust's drop elaboration (locals dropped on `?`, unwinding order) is built into the model as the language rule it is; use-after-free and reads of uninitialised memory are not expressible in the ledger model; they are looked for on the implementation by the Miri stage (an interpreter run over ~700 scripted cases - a test, not a proof; skipped with a note in the evidence if the nightly Miri toolchain is absent).",
+        "trusted_base": COMMON_TB + ["Rust drop and unwinding semantics; catch_unwind", "Miri (nightly toolchain) as the detector of undefined behaviour and leaks in the interpreted cases"],
         "assumptions": ["the element type's Drop only records"],
     },
     "C09": {
